@@ -110,7 +110,7 @@ variable {c : Cfg}
 
 theorem WF_heap (sz cap bits : Nat) (a : Tbl) : WF c (.heap sz cap bits a) =
     (if isDense c bits then DenseWF c sz cap a
-    else if isPlain c bits then PlainWF bits sz a ∧ cap = a.size ∧ c.W < bits ∧ (∀ i, i < a.size → get a i < 2 ^ c.W)
+    else if isPlain c bits then PlainWF bits sz a ∧ cap = a.size ∧ c.W < bits ∧ (∀ i, i < a.size → get a i < 2 ^ c.W) ∧ bits < 2 ^ c.W
     else BitmapWF c sz cap bits a) := rfl
 
 theorem CInv_szLeft (ok : CfgOK c) {r : Rp} (wf : WF c r) {k : Cursor} {rest : List Nat}
